@@ -39,6 +39,10 @@ pub enum Op {
         /// the write it was waiting for is applied and announced all the same
         #[serde(default)]
         abandon: bool,
+        /// right after the slow subscriber, another one is subscribed whose receiver is already gone: it has
+        /// to be dropped from the list, the slow one (whose send is still waiting for room) must stay
+        #[serde(default)]
+        dead_after: bool,
     },
     /// (first op only) the document starts with the read capability
     StartReadOnly,
@@ -132,14 +136,19 @@ impl Property for C12 {
             ]),
             ("slow-subscriber-misses-nothing".into(), vec![
                 Op::Subscribe { s: 0 },
-                Op::Burst { a: 0, n: 6, cap: 2, ts: 30, abandon: false },
+                Op::Burst { a: 0, n: 6, cap: 2, ts: 30, abandon: false, dead_after: false },
                 Op::Local { a: 1, key: b"after".to_vec(), c: 0, ts: 40 },
             ]),
             ("slow-subscriber-impatient-writer".into(), vec![
                 Op::Subscribe { s: 0 },
-                Op::Burst { a: 0, n: 6, cap: 1, ts: 30, abandon: true },
+                Op::Burst { a: 0, n: 6, cap: 1, ts: 30, abandon: true, dead_after: false },
                 Op::Local { a: 1, key: b"after".to_vec(), c: 0, ts: 40 },
                 Op::Remote { a: 2, key: b"later".to_vec(), c: Some(1), ts: 9, peer: 0, status: 0, bad: false },
+            ]),
+            ("slow-subscriber-next-to-a-dead-one".into(), vec![
+                Op::Subscribe { s: 0 },
+                Op::Burst { a: 0, n: 6, cap: 1, ts: 30, abandon: false, dead_after: true },
+                Op::Local { a: 1, key: b"after".to_vec(), c: 0, ts: 40 },
             ]),
             ("policy-decides-download-flag".into(), vec![
                 Op::Subscribe { s: 0 },
@@ -201,7 +210,7 @@ impl Property for C12 {
                     }
                 }
                 18 if read_only || rng.chance(1, 3) => Op::Import { write: rng.chance(2, 3) },
-                19 if rng.chance(1, 2) => Op::Burst { a, n: rng.range(2, 7), cap: rng.range(1, 3), ts: ts + 100, abandon: rng.chance(1, 2) },
+                19 if rng.chance(1, 2) => Op::Burst { a, n: rng.range(2, 7), cap: rng.range(1, 3), ts: ts + 100, abandon: rng.chance(1, 2), dead_after: rng.chance(1, 2) },
                 _ => Op::Policy { pol: gen_pol(rng) },
             });
         }
@@ -376,13 +385,24 @@ impl Property for C12 {
                         );
                         lines.push(Line::model(format!("emsgres 1 {nshex} {NOW} {} {}", hex(&peer_bytes(*peer)), msg_tok(&m, &tok)), line));
                     }
-                    Op::Burst { a, n, cap, ts, abandon } => {
+                    Op::Burst { a, n, cap, ts, abandon, dead_after } => {
                         let author = self.keys.authors[*a].clone();
                         let (tx, rx) = async_channel::bounded::<Event>(*cap);
                         burst_counter += 1;
                         let id = 900 + burst_counter;
                         handle.subscribe(nsid, tx.clone()).await?;
                         lines.push(Line::model(format!("esub 1 {id}"), "ok"));
+                        // a second subscriber, registered after the slow one, whose receiver goes away while the
+                        // slow one's channel is full (the send to the slow one is then still waiting for room when
+                        // the send to the dead one fails)
+                        let mut dying = None;
+                        if *dead_after {
+                            let (dtx, drx) = async_channel::unbounded::<Event>();
+                            handle.subscribe(nsid, dtx).await?;
+                            lines.push(Line::model(format!("esub 1 {}", id + 50), "ok"));
+                            lines.push(Line::model(format!("edrop 1 {}", id + 50), "ok"));
+                            dying = Some(drx);
+                        }
                         iroh_docs::verif::set_clock_micros(Some(*ts));
                         // the writer: n local writes to fresh keys, one after the other
                         let writer = {
@@ -402,6 +422,8 @@ impl Property for C12 {
                         };
                         // the slow reader
                         tokio::time::sleep(std::time::Duration::from_millis(40)).await;
+                        let lagging = dying.is_some();
+                        drop(dying.take());
                         if *abandon {
                             writer.abort();
                             // the reader is still not reading: the actor learns that the writer is gone while
@@ -418,7 +440,13 @@ impl Property for C12 {
                                     Err(e) if e.is_cancelled() => None,
                                     Err(e) => anyhow::bail!("writer: {e}"),
                                 },
-                                ev = rx.recv() => { if let Ok(ev) = ev { got.push(event_tok(&ev, &tok)); } }
+                                ev = rx.recv() => {
+                                    if let Ok(ev) = ev { got.push(event_tok(&ev, &tok)); }
+                                    if lagging {
+                                        // keep lagging: the channel is full again before the next event is sent
+                                        tokio::time::sleep(std::time::Duration::from_millis(4)).await;
+                                    }
+                                }
                                 _ = tokio::time::sleep_until(deadline.into()) => anyhow::bail!("burst did not finish"),
                             }
                         };
